@@ -38,6 +38,10 @@ plugin "beancount.plugins.auto_accounts"
   Expenses:Food           20.00 USD
     who: "me"
 
+2020-01-06 * "Cafe Roma" ""
+  Liabilities:Card        -4.00 USD
+  Expenses:Food            4.00 USD
+
 2020-01-06 * "Amy Cafe" "espresso"
   Liabilities:Card        -3.2503 USD
   Expenses:Food:Coffee     3.2503 USD
